@@ -14,6 +14,10 @@ package resolver
 //@ func (*Resolver).processDelegation
 //@   abstract
 //@   nosafety all pre
+//@   # C12: detached IPv6 nameserver-address enrichment is never started from inside an enrichment job (best-effort
+//@   # context): one client query spawns at most one generation of detached jobs, whatever the referrals name
+//@   assert at call middleware/resolver/dnssec.InheritNSEC3HashMemos#1: !lastret("middleware.IsBestEffortRecursionWork") && arg1 == ctx
+//@   assert at call middleware.IsBestEffortRecursionWork#1: arg0 == ctx
 //@   assert at store resolver.resolveState.work#1: value == rs.work
 //@   assert at store resolver.resolveState.depth#1: value == rs.depth
 //@   assert at store resolver.resolveState.depth#2: rs.depth > -9223372036854775808 ==> value < rs.depth
@@ -481,7 +485,12 @@ package resolver
 //@   assert at call internal/dnsutil.SetRcodeWithEDE#1: lastret("(*middleware/resolver.Resolver).Resolve", 1) != nil && arg0 == req && arg1 == dns.RcodeServerFailure && arg3 == lastret("internal/dnsutil.ErrorToEDE") && arg4 == lastret("internal/dnsutil.ErrorToEDE", 1)
 //@   assert at call internal/dnsutil.ErrorToEDE#1: arg0 == lastret("(*middleware/resolver.Resolver).Resolve", 1)
 //@   assert at return#5: result == lastret("internal/dnsutil.SetRcodeWithEDE#1") && lastret("(*middleware/resolver.Resolver).Resolve", 1) != nil
-//@   assert at return#8: result == lastret("(*middleware/resolver.Resolver).Resolve") && lastret("(*middleware/resolver.Resolver).Resolve", 1) == nil
+//@   assert at return#9: result == lastret("(*middleware/resolver.Resolver).Resolve") && lastret("(*middleware/resolver.Resolver).Resolve", 1) == nil
+//@   # C11 (every admitted query gets a reply): an upstream reply is passed on as is only with an rcode that fits the DNS
+//@   # header (0..15); an extended rcode - which cannot be encoded for a client without EDNS, so the reply would fail
+//@   # to pack and nothing would be sent - is turned into SERVFAIL built from the request
+//@   assert at return#8: result == lastret("internal/dnsutil.SetRcodeWithEDE#4")
+//@   assert at call internal/dnsutil.SetRcodeWithEDE#4: arg0 == req && arg1 == dns.RcodeServerFailure && lastret("(*middleware/resolver.Resolver).Resolve").Rcode > 15
 //@   assert at call internal/dnsutil.SetRcodeWithEDE#2: arg1 == dns.RcodeServerFailure && arg0 == req
 //@   assert at call internal/dnsutil.SetRcodeWithEDE#3: arg1 == dns.RcodeServerFailure && arg0 == req
 //@
